@@ -80,7 +80,7 @@ def main():
             "simulated_plies": sum(p["plies"] for p in parts),
             "oracle_evaluations": evals,
             "runs_per_hour": int(runs / wall_f * 3600) if wall_f > 0 else 0,
-            "seeds": {"base": int(seed), "run_indices": "0..N-1 per configuration", "per_configuration": {f'{p["backend"]}/{p["profile"]}': p["runs"] for p in parts}},
+            "seeds": {"base": int(seed), "run_indices_per_configuration": {f'{p["backend"]}/{p["profile"]}': [p.get("first_index", 0), p.get("first_index", 0) + p["runs"]] for p in parts}},
             "simulated_time": "logical: plies / operations (the library has no clock); see simulated_plies, simulated_steps",
             "faults_injected": faults,
             "corruption_operators_fired": ops,
